@@ -36,7 +36,8 @@ claim('C16', 'model_checking',
 claim('C12', 'other',
       'Each law of the property (affine round trips, continuity of tempo/etempo/beats changes at the change instant, '
       'rate == tempo, next_time_on_grid earliest congruent beat >= reference counted from the last meter change, '
-      'play(quant) scheduling there, bar/beat inverses, next_bar) is one z3 validity query over the terms computed by '
+      'play(quant) scheduling there for every spelling of the quant -- object, pair, list, bare number, the spellings of '
+      '"no quantisation" --, bar/beat inverses, next_bar) is one z3 validity query over the terms computed by '
       'the real TempoClock methods from an ARBITRARY invariant-satisfying state (all fields, logical and physical time '
       'symbolic reals); the setters are proved to re-establish the invariant (already inside the \'meter\' notification '
       'a dependant receives), so the laws hold after histories of any length. quant and beats_per_bar in the floor-based laws range over a stated grid.',
@@ -71,7 +72,8 @@ claim('C01', 'translation_validation',
       'Every program of the bounded space (all SSA expression DAGs with <=2 ring-operator nodes over audio/control '
       'units and two constants in quick; <=2 nodes over 8 leaf kinds and <=3 nodes over 3 leaves in thorough; plus '
       'madd (also in list form over channels of different rates), 3/4-term sums through +, Sum3/Sum4.new and Mix, '
-      'shared rewritten sums, double negations, dead pure operators, two outputs, and every unary/binary server operator) is built by the real SynthDef with SYMBOLIC constants; the emitted bytes are decoded by an '
+      'shared rewritten sums, double negations, dead pure operators, two outputs, a number / unit on the left of a channel '
+      'list (the list\'s reflected operators), and every unary/binary server operator) is built by the real SynthDef with SYMBOLIC constants; the emitted bytes are decoded by an '
       'independent SCgf-2 reader into z3 terms and z3 proves, per path, compiled output == source expression for all '
       'leaf values and all constants of the path class, stateful units exactly once, opcode == server table, '
       'arithmetic rates == max input rate.',
@@ -88,7 +90,8 @@ claim('C02', 'translation_validation',
       'them, parameter slots are covered exactly once, and SynthDesc.new_from/_read_stream recover name, control names, '
       'defaults (z3 equality with the symbolic source defaults), rates, gate flag and I/O units; invalid graphs (rate '
       'mismatches, NaN / non-numeric inputs, also into units with their own validators at audio and control rate) must '
-      'raise. Every C01 path is validated structurally as well.',
+      'raise; a rewritten operator read on two inputs of one consumer; every output unit the graph function created is '
+      'in the emitted definition. Every C01 path is validated structurally as well.',
       _TB + '; creation order is observed by wrapping SynthDef._add_ugen from the harness.',
       'symbolic execution of the real builder/writer/reader + independent structural validation per path',
       'DESIGN.md 3/C02')
@@ -108,7 +111,8 @@ claim('C04', 'translation_validation',
 claim('C03', 'translation_validation',
       'For every unit-generator class whose audio constructor delegates directly to the generic expansion (8 classes '
       'quick, all 105 found by introspection thorough), for arithmetic operators between units, channel lists, plain '
-      'lists and numbers (reflected forms included) and for 10 ChannelList convenience methods: every combination of '
+      'lists and numbers (reflected forms included) and for 11 ChannelList convenience methods (range mappings with the '
+      'default, None and one-sided clip argument): every combination of '
       'argument shapes (scalar, lists of 1..3, two ragged nestings) is built twice by the real SynthDef -- once as the '
       'multichannel call and once as the single-channel calls the wrap-and-zip law prescribes -- and the two decoded '
       'definitions must be identical, the result shaped like the reference, one unit per combination; tuples stay '
@@ -127,7 +131,8 @@ claim('C08', 'model_checking',
       'value are symbolic reals, all subsets of raising tasks. Obligations per path (z3): exactly once per scheduling, '
       'never early, in the zero-jitter sub-model exactly on time (no waiting for an unrelated deadline), (time, '
       'scheduling order) order, re-schedule relative to the scheduled time, clear cancels, no blocking for ever with a '
-      'pending task. Schedule counterexamples are replayed on real threads and real time.',
+      'pending task, and the time the main thread reads after an AppClock task returned or raised is the present.'
+      ' Schedule counterexamples are replayed on real threads and real time.',
       _TB + '; threading.Condition/Thread/RLock inside sc3.base.clock are replaced by the co-simulation fakes '
       '(no spurious wake-ups; a notify without waiter is lost); tasks take no time; TempoClock tempo from a grid.',
       'symbolic co-simulation of the real run loops (interleavings and time as solver variables) + SMT validity',
@@ -139,7 +144,8 @@ claim('C05', 'model_checking',
       'SystemClock; started with play or with clock.sched(delay, routine)) -- z3 proves at every resumption logical time == start + sum of deltas (through the tempo), child '
       'start == parent\'s current logical time, on every interleaving chosen by the decision tree. NRT: the real '
       'ClockScheduler with routines on SystemClock, AppClock and TempoClocks created at a non-zero time (with/without '
-      'beats offset): same closed form, executed instants non-decreasing, elapsed time ends at the last instant. '
+      'beats offset; a tempo change through the setter and through etempo from the routine itself): same closed form, '
+      'executed instants non-decreasing, elapsed time ends at the last instant. '
       'RT counterexamples are replayed on real threads under load, NRT ones concretely.',
       _TB + '; co-simulation fakes for threading inside sc3.base.clock; tempo from a grid; routines are played with '
       'quant 0 (TempoClock.play quantises to the next beat by default, which is documented behaviour).',
@@ -151,7 +157,8 @@ claim('C07', 'model_checking',
       'bundle, a message or a message with a completion-bundle blob with symbolic latencies; the datagram captured at '
       'OscInterface._send is decoded by an independent OSC 1.0 reader, the timetag placeholder is mapped back to its '
       'term and z3 proves timetag == trunc((logical time + latency) * 2^32) + offset (now + latency outside routines, 1 '
-      'for None/negative), nested bundles relative to the same instant and refused when earlier than their parent; '
+      'for None/negative; also after an AppClock routine ended or an AppClock task raised), nested bundles relative to '
+      'the same instant and refused when earlier than their parent; '
       'osc/elapsed conversion within 2^-32. NRT: the real OscScore for all programs of 1..3 (quick) / 4 sends from a '
       'routine or from outside with symbolic latencies/yields/tailtime: listed time == t + L, sorted, FIFO among equal '
       'times (equality forked by the solver), closes with the tail marker, raw == concatenation of the same bundles.',
@@ -181,7 +188,8 @@ claim('C06', 'other',
       'DESIGN.md 3/C06')
 
 claim('C17', 'model_checking',
-      'Client-object histories (3 operations outside bind(), 2 inside; 4 / 3 thorough) over Synth / Group / ParGroup '
+      'Client-object histories (3 operations outside bind(), 2 inside; thorough: argument-form variants at every '
+      'position and 4-operation histories for 8 first pairs) over Synth / Group / ParGroup '
       'creation with every add action and default-group / server / node / root targets, list and dict arguments, '
       'set (scalars, arrays, bus and buffer objects), setn, map / mapn / mapa / mapan, fill, run, release, '
       'move_before / after / to_head / to_tail, free, Buffer allocation (single; 1..4 consecutive), free, double '
@@ -195,7 +203,9 @@ claim('C17', 'model_checking',
       'an exception. Control values are symbolic reals (argument equalities decided by z3). Every spelling of every '
       'add action reaches the wire as the server\'s number; every constructor form (Synth(), new_paused, grain, after, '
       'before, head, tail, replace, groups, buffers, bus and node commands) with a target on a second server sends to '
-      'that server\'s address with ids from that server\'s allocators, inside and outside bind().',
+      'that server\'s address with ids from that server\'s allocators, inside and outside bind(); allocation histories '
+      'of up to 12 operations over one resource (buffers or control buses): a creation command never carries an id '
+      'a live object owns.',
       _TB + '; finite control (operation, target, variant) is enumerated by the decision tree; the harness plays the '
       'server for /sync (answers /synced through the receive functions).',
       'decision-tree model checking of real client objects against a command schema table and id ledger; symbolic '
@@ -209,8 +219,8 @@ claim('C18', 'model_checking',
       'printable-ASCII keys of ANY length; (b) all dispatch histories of 5 (quick) / 6 operations over create / enable / '
       'disable / one_shot / free / replace function / CmdPeriod / message with a symbolic int argument, against a '
       'reference dispatcher: exactly the enabled matching responders fire, once, in registration order per path, with '
-      'message, time, sender, port; every combination of source / receive-port filters x sender host / port x receiving '
-      'port; (c) one iteration of the real bundle-element loop from an arbitrary position with an '
+      'message, time, sender, port; every combination of source (with and without port) / receive-port filters x sender '
+      'host / port x receiving port; (c) one iteration of the real bundle-element loop from an arbitrary position with an '
       'arbitrary int32 size: z3 proves the position strictly increases or the loop leaves (models replayed as real '
       'datagrams under a watchdog); (d) SystemAction / ServerAction / CmdPeriod / NotificationCenter histories vs an '
       'ordered list, also with an action that unregisters a later one while the registry runs; (e) the real UDP '
@@ -229,8 +239,10 @@ claim('C20', 'model_checking',
       'belongs to no definition, the next build gives baseline bytes; (3) two real builder threads under a cooperative '
       'scheduler with hand-over choices at every unit creation and lock operation (<= 2/3 voluntary switches): both '
       'results equal their sequential builds; (4) every history of 3/4 operations over successful builds (graphs with '
-      'and without width-first units), description reads (SynthDesc.new_from, add) and failing builds leaves no build '
-      'context and gives fresh-state bytes. Counterexamples are replayed with real sets / real preemptive threads.',
+      'and without width-first units, with a prepended argument, with a default-less parameter), description reads '
+      '(SynthDesc.new_from, add), user annotation of a built definition\'s metadata / variants, and failing builds '
+      'leaves no build context and every graph still compiles to its fresh-state bytes.'
+      ' Counterexamples are replayed with real sets / real preemptive threads.',
       _TB + '; finite control spaces are enumerated completely by the decision tree (the solver is only the branch '
       'oracle here).',
       'decision-tree model checking of the real builder (adversarial set order, fault injection, cooperative 2-thread '
@@ -244,7 +256,7 @@ claim('C13', 'translation_validation',
       'compared with an independent denotational interpreter -- same length and z3-equal elements on every path -- for '
       'two streams of the same pattern object, one consumed around the other, and the pattern must stay unchanged; '
       'every template is also embedded in a sequence in front of an element that returns its input value and driven '
-      'with distinct input values (the element receives the value of its own step); '
+      'with distinct input values (the element receives the value of its own step); an ended stream stays ended; '
       'seeded random patterns: same seed, same sequence, no interference.',
       _TB + '; the reference interpreter den() in vf/props/c13.py is written from the class documentation.',
       'symbolic execution of the real pattern streams + SMT equality against a denotational reference',
@@ -292,7 +304,8 @@ claim('C14', 'model_checking',
       'event(key) equals the documented formula (z3; exp2/exp10 uninterpreted with inverse axioms). (B) a note event '
       'played inside a routine: exactly one /s_new at logical time + latency with instrument, fresh node id, add action, '
       'group and the event\'s value for each instrument control the event defines; one gate-off later by sustain iff the '
-      'instrument has a gate; nothing for a rest. (C) Pbind player: event k at start + sum of deltas; Ppar of three '
+      'instrument has a gate; nothing for a rest; an event changed and played again, and an edited copy of a played '
+      'event, send the current values with fresh node ids. (C) Pbind player: event k at start + sum of deltas; Ppar of three '
       'children keeps each child\'s timeline; Pdur ends at the requested total (with quant: at the pattern\'s length '
       'rounded up to the next multiple); a tuple of names as Pbind key; Pmono: one synth, later events as /n_set on '
       'the timeline -- all over symbolic durations.',
